@@ -542,6 +542,13 @@ def typed_model_cases(*a, **k):   # filled in by the typed layer below
 
 
 def run(rep):
+    try:
+        run_inner(rep)
+    except RuntimeError as e:
+        raise common.MachineryError(str(e)[-1500:])
+
+
+def run_inner(rep):
     tier, rng = rep.tier, Rng(rep.seed)
     cov = rep.cov
     broken = []
@@ -583,8 +590,8 @@ def run(rep):
     tsc = Schema(info["test"])
     gen = Gen(sc, rng.fork(), pool)
     tgen = Gen(tsc, rng.fork(), pool)
-    nvals = 6 if tier == "quick" else 120          # values per type
-    nalt = 4 if tier == "quick" else 8
+    nvals = 6 if tier == "quick" else 30           # values per type
+    nalt = 4 if tier == "quick" else 6
     # 4. values, canonical bytes, alternative serialisations
     items = []   # dict(pool, msg, ty, entries, canon, alts[], kind)
     for ty, (mname, arm) in sorted(TYPES.items()):
@@ -618,7 +625,7 @@ def run(rep):
                 rt_cases.append({"op": "rt", "ty": it["ty"], "hex": b.hex()})
     # malformed stream
     mrng = rng.fork()
-    nmal = 700 if tier == "quick" else 12000
+    nmal = 700 if tier == "quick" else 4000
     mal_cases, mal_kinds = [], {}
     for _ in range(nmal):
         it = mrng.choice(items)
@@ -704,7 +711,7 @@ def run(rep):
     mm, samp = common.run_model_cases(
         "C09", "From EC Require Import Model.Wire Model.ProtoSchema Gen.Schema.\nOpen Scope string_scope.",
         "(fun c : bool * nat * string => run_canonical_raw (if fst (fst c) then test_schema else schema) (snd (fst c), unhex (snd c)))",
-        coq_cases, shard_size=max(40, len(coq_cases) // 16 + 1), sample_ids=sample_ids)
+        coq_cases, shard_size=max(40, len(coq_cases) // 64 + 1), sample_ids=sample_ids, timeout=3000)
     if mm:
         broken.append(f"correspondence vh codec canon vs Model.ProtoSchema.canonical_raw: {len(mm)} disagreeing cases")
     tmm, tsamples, tcount = typed_correspondence(rep, sc, items, routs, rt_cases, bcases, bouts)
@@ -860,7 +867,7 @@ def std_edge_cases(rng, n):
 
 def build_cases(rng, tier, pool):
     """Typed constructions through the public Rust API: equal values produced in different ways."""
-    n = 40 if tier == "quick" else 600
+    n = 40 if tier == "quick" else 300
     cases, groups = [], []     # groups: lists of case indices that must encode identically
 
     def h32():
@@ -968,7 +975,7 @@ def typed_correspondence(rep, sc, items, routs, rt_cases, bcases, bouts):
     for c, o in zip(rt_cases, routs):
         if c["ty"] in MODELLED:
             cases.append((c, o))
-    edge = std_edge_cases(rng, 150 if rep.tier == "quick" else 3000)
+    edge = std_edge_cases(rng, 150 if rep.tier == "quick" else 1000)
     for c, o in zip(bcases, bouts):
         if c["ty"] in MODELLED and "ok" in o:
             edge.append({"op": "rt", "ty": c["ty"], "hex": o["ok"], "kind": "built"})
@@ -994,7 +1001,7 @@ def typed_correspondence(rep, sc, items, routs, rt_cases, bcases, bouts):
     sample_ids = [0, len(cases) // 2, len(cases) - 1]
     mm, samp = common.run_model_cases(
         "C09typed", "From EC Require Import Model.Wire Model.ProtoSchema Model.ProtoTyped.\nOpen Scope string_scope.",
-        "Model.ProtoTyped.run_rt_case", coq_cases, shard_size=max(20, len(coq_cases) // 16 + 1), sample_ids=sample_ids)
+        "Model.ProtoTyped.run_rt_case", coq_cases, shard_size=max(20, len(coq_cases) // 64 + 1), sample_ids=sample_ids, timeout=3000)
     mism = [{"case": cases[i][0], "impl": cases[i][1], "model_obs": m} for i, m in sorted(mm.items())]
     samples = [{"case": cases[i][0], "impl": cases[i][1], "model_obs": samp.get(i)} for i in sample_ids if i < len(cases)]
     return mism, samples, len(coq_cases)
